@@ -62,7 +62,10 @@ impl RefInd for Fisher {
 		self.hi.push(s.v);
 		self.lo.push(s.v);
 		let (h, l) = (self.hi.max(), self.lo.min());
-		let ft = if h.to_bits() == l.to_bits() {
+		// highest == lowest is decided on the implementation's own source values: when the source is an input field
+		// (exact) the reference sees the same bits; for computed sources (tp, hl2, ...) another evaluation order may
+		// differ by an ulp, so equality up to the rounding of the source is treated as undecided
+		let ft = if h.to_bits() == l.to_bits() && s.e == 0.0 {
 			z()
 		} else if (h - l).abs() <= 4.0 * (s.e + U * h.abs()) {
 			// the transform is discontinuous where highest == lowest: with a range inside the rounding of the source any
